@@ -5,6 +5,7 @@ pub mod exec;
 pub mod oracles_run;
 pub mod oracles_stream;
 pub mod pipelines;
+pub mod pure;
 pub mod recw;
 pub mod report;
 pub mod reporters;
